@@ -25,7 +25,9 @@ Init == /\ tid \in 1..Len(Traces) /\ l = 1 /\ sizes = <<>> /\ damaged = {} /\ wa
 IsEvent(name) == l <= Len(Traces[tid]) /\ Ev.e = name /\ l' = l + 1 /\ tid' = tid
 
 Arch == /\ IsEvent("arch") /\ l = 1
-        /\ sizes' = Ev.sizes /\ damaged' = ToSet(Ev.damaged) /\ want' = ToSet(Ev.delivered)
+        \* folders whose worker meets an error: damaged packed data (CRC mismatch, decoder failure) or an output that cannot be written
+        /\ sizes' = Ev.sizes /\ want' = ToSet(Ev.delivered)
+        /\ damaged' = ToSet(Ev.damaged) \cup (IF "failsink" \in DOMAIN Ev THEN ToSet(Ev.failsink) ELSE {})
         /\ UNCHANGED <<started, ended, usum, pre, post, closed, resulted, round>>
 
 (* C18: a callback completed.  Nothing may be delivered after close() returned. *)
